@@ -54,7 +54,9 @@ def r1_deserialise(ctx):
     ip = Interp(repo, call_models=_ts_models(), inline={f"{EXP}._deserialise_node", f"{EXP}.default_node_factory", f"{G}.nodes.Node.__init__",
                                                          f"{G}.nodes.Node.is_sink", f"{G}.nodes.Node.is_source", f"{G}.nodes.Node.get_output",
                                                          f"{G}.nodes.Node._make_output", f"{G}.nodes.Output.__init__"})
-    paths = ip.explore(fi, args={"data": data, "node_factory": FuncRef(repo.func(f"{EXP}.default_node_factory"))})
+    import copy as _copy
+    pristine = _copy.deepcopy(data)
+    paths = ip.explore(fi, env={"data": data}, args={"node_factory": FuncRef(repo.func(f"{EXP}.default_node_factory"))})
     ctx.evals(len(paths))
     if len(paths) == 1 and paths[0].exit[0] == "raise":
         ctx.violation("C12.R1", fi.qual, loc(fi), "model data deserialises", f"a well-formed serialised graph cannot be read back: {vkey(paths[0].exit[1])[:100]}")
@@ -64,6 +66,13 @@ def r1_deserialise(ctx):
         return
     p = paths[0]
     g = p.exit[1]
+    after = p.heap.get("data")
+    if vkey(after) != vkey(pristine):
+        ctx.violation("C12.R1", fi.qual, loc(fi), "the serialised form is only read",
+                      f"deserialise changes the dict it is given: before {vkey(pristine)[:120]} … after {vkey(after)[:120]} … — reading the same serialised graph a second time "
+                      f"(or writing it to a file afterwards) no longer yields the graph that was serialised")
+    else:
+        ctx.ok("C12.R1", loc(fi), "deserialise leaves its input untouched")
     made = {}
     for e in p.effects:
         r = e.data.get("result") if e.kind == "call" else None
@@ -186,15 +195,15 @@ def r2_writer(ctx):
     fi = repo.func(f"{G}.nodes.Node.serialise")
     ctx.analysed(fi.qual)
     P, Q = _node("p", outputs=["o1", "o2"]), _node("q")
-    nd = _node("n", {"x": _out(P, "o1"), "y": _out(Q, "0")}, ["a", "b"], payload={"k": 1})
+    nd = _node("n", {"x": _out(P, "o1"), "y": _out(Q, "0")}, ["b", "a"], payload={"k": 1})  # outputs deliberately not in alphabetical order
     ip = Interp(repo, inline={f"{G}.nodes.Output.serialise"})
     paths = ip.explore(fi, args={"self": nd})
     ctx.evals(len(paths))
     got = [p.exit[1] for p in paths if p.exit[0] == "return" and not any(d.key.startswith("hasattr") and d.value for d in p.decisions)]
-    want = {"outputs": ["a", "b"], "inputs": {"x": ("p", "o1"), "y": "q"}, "payload": {"k": 1}}
+    want = {"outputs": ["b", "a"], "inputs": {"x": ("p", "o1"), "y": "q"}, "payload": {"k": 1}}
     if want not in got:
         ctx.violation("C12.R2", fi.qual, loc(fi), "serialised node content",
-                      f"Node(outputs [a,b], inputs x<-p.o1, y<-q (default output), payload) serialises to {vkey(got)[:200]}; expected {want} "
+                      f"Node(outputs [b,a] (in this order), inputs x<-p.o1, y<-q (default output), payload) serialises to {vkey(got)[:200]}; expected {want} "
                       f"(every attribute Graph.__eq__ compares must be written; default outputs as the bare parent name)")
     else:
         ctx.ok("C12.R2", loc(fi), "Node.serialise writes outputs, inputs (both reference forms) and payload")
